@@ -266,6 +266,7 @@ func c14Admin(c *vlib.Ctx) {
 	}
 	c14AdminManaged(c)
 	c14MCP(c)
+	c14MCPProxy(c)
 }
 
 const c14ManagedCfg = `ingress { listen 127.0.0.1:0 }
